@@ -453,6 +453,13 @@ func replay(t *testing.T, name string, h Harness) {
 	if *fOut != "" {
 		writeJSON(*fOut, res)
 	}
+	if d := os.Getenv("VERIF_DUMP_TRACE"); d != "" && s != nil {
+		var sb strings.Builder
+		for _, c := range s.Trace() {
+			fmt.Fprintf(&sb, "%s %d/%d %s\n", c.Kind, c.C, c.N, c.Label)
+		}
+		_ = os.WriteFile(d+"/replay-trace.txt", []byte(sb.String()), 0o644)
+	}
 	fmt.Printf("REPLAY class=%q witness=%q\n", res.Class, res.Witness)
 }
 
